@@ -2,6 +2,7 @@
 bounded shape and record the executions in the CtcDecoder_Trace format."""
 import itertools
 import math
+import random
 
 import numpy as np
 
@@ -96,6 +97,21 @@ def _decode_one(mat):
            "has_h": False, "hret": []}
     use_lm, eos = c["UseLm"], c["Eos"]
     init_h = ToyH([(c["H0"],)]) if (use_lm and c["H0"]) else None
+    # The specification has no state across calls (Init always starts from the lone empty prefix), while the real decoder
+    # object is long-lived (one instance decodes every line of every page).  To let a leak through the instance show up as a
+    # trace mismatch, the shared instance first decodes, for a deterministic quarter of the cases, two degenerate lines
+    # (blank-only and nearly blank-only: they take the all-pruned shortcut) with the full set of options.
+    if (hash_of([x for r in mat for x in r]) + c.get("salt", 0)) % 4 == 0:
+        for row in ([d] + [0] * nc, [d - 1, 1] + [0] * (nc - 1)):
+            with np.errstate(divide="ignore", invalid="ignore", over="ignore"):
+                plp = np.log(np.array([row[1:] + row[:1]] * t_, dtype=float) / d)
+                try:
+                    if use_lm:
+                        dec(plp, model_eos=bool(eos), return_h=True, init_h=init_h)
+                    else:
+                        dec(plp)
+                except Exception:
+                    pass
     try:
         with np.errstate(divide="ignore", invalid="ignore", over="ignore"):
             for t in range(1, t_ + 1):
@@ -151,7 +167,15 @@ def run_config(cfg, mats):
     dec = CTCPrefixLogRawNumpyDecoder(letters, k, **kw)
     _CFG = dict(cfg)
     _CFG["dec"] = dec
-    return pmap(_decode_one, mats)
+    # seeded order: which lines precede which on the shared decoder instance varies with VERIF_SEED
+    mats = list(mats)
+    order = list(range(len(mats)))
+    random.Random(cfg.get("salt", 0)).shuffle(order)
+    res = pmap(_decode_one, [mats[i] for i in order])
+    out = [None] * len(mats)
+    for k, i in enumerate(order):
+        out[i] = res[k]
+    return out
 
 
 def tla_constants(cfg):
